@@ -253,6 +253,19 @@ class StmtMixin:
                 if len(res) != 1 or not normal(res[0][0]):
                     return None
                 s2, base = res[0]
+                if isinstance(base, SV) and isinstance(base.ty, TOpt) and isinstance(base.ty.inner, TRef):
+                    base = self.unwrap_opt(s2, base, e, '.' + e.attr)
+                if isinstance(base, SV) and isinstance(base.ty, TRef) and self.classes.field(base.ty.cls, e.attr)[0] is None:
+                    # a field of a subclass: implicit downcast (AttributeError obligation)
+                    owners = []
+                    for q in self.classes.subclasses(base.ty.cls):
+                        dc, _ = self.classes.field(q, e.attr)
+                        if dc is not None and dc not in owners:
+                            owners.append(dc)
+                    if len(owners) == 1:
+                        self.oblige(s2, self.isinstance_term(s2, base, owners[0]), 'safety', 'has-attr-' + e.attr, node=e,
+                                    info={'claim': 'object is a %s, which has attribute %s (AttributeError)' % (owners[0], e.attr)})
+                        base = SV(TRef(owners[0]), base.t)
                 if isinstance(base, SV) and isinstance(base.ty, TRef):
                     attr_ = '_dict' if e.attr == '__dict__' else e.attr
                     e = ast.copy_location(ast.Attribute(value=e.value, attr=attr_, ctx=e.ctx), e)
@@ -810,7 +823,7 @@ class StmtMixin:
                 if isinstance(n, ast.Call) and isinstance(n.func, ast.Attribute) \
                         and isinstance(n.func.value, ast.Name) \
                         and n.func.attr in ('append', 'extend', 'update', 'insert', 'remove', 'pop',
-                                            'setdefault', 'clear', 'sort'):
+                                            'setdefault', 'clear', 'sort', 'reverse'):
                     names.add(n.func.value.id)
                 if isinstance(n, ast.Subscript) and isinstance(n.ctx, (ast.Store, ast.Del)):
                     b = n.value
